@@ -39,6 +39,27 @@ CLAIMED = {
              "comparing the regenerated tables with the compiled crate.",
         design="6/C17", technique="Coq proof (arithmetic on be16/be32, decimal induction, table lemmas) + differential execution with field-exhaustive sweeps",
         note="make_request_epilogue is crate-private: its theorem is tied to the code through the connection-level check (C07). bitflags iter_names order modelled."),
+    "C19": dict(
+        text="Proof: VarName/OwnedVarName/StaticVarName equality, ordering, hashing (as the sequence of Hasher::write payloads) and all "
+             "constructors are modelled over byte strings and the regenerated interned-name table; 32 theorems for all strings: "
+             "eq_ignore_ascii_case <-> equal upper-casings, equivalence, total order consistent with it (antisymmetry, transitivity, "
+             "compatibility), write-stream equality iff equality (hence identical hashes under any hasher), stream shape/injectivity/"
+             "prefix-freeness, owned fast paths agree with the string definitions (needs: table has no duplicates and is upper-case - re-checked "
+             "by vm_compute whenever the table changes), constructor normalisation/interning, header-name mapping, lookup by any spelling. "
+             "Tie: differential execution through every constructor with a recording Hasher, HashMap/BTreeMap look-ups, all interned names in "
+             "three case classes, chunk-boundary lengths, non-ASCII case pairs.",
+        design="6/C19", technique="Coq proof (list induction, table facts by vm_compute lifted) + differential execution with recording hasher",
+        note="strum EnumString(use_phf)/IntoStaticStr modelled as exact table lookup; std ascii helpers, Iterator::cmp, chunks_exact modelled; "
+             "real SipHash collisions not modelled; C19_hash_prefix_free assumes no 0xff byte (true of UTF-8)."),
+    "C20": dict(
+        text="Proof: write_headers / simple_redirect / http_headers are modelled as the exact sequence of write_all calls on a bounded "
+             "(&mut [u8]) or unbounded (Vec) destination; 12 theorems for all codes 100..999, header lists, byte strings, capacities and any reason "
+             "table: fits => Ok(len) and exactly the documented text appended; does not fit => Err and the destination holds take cap expected; "
+             "Ok(n) => exactly n bytes appended; line structure (status line, one line per header in order, blank line); 3-digit status rendering. "
+             "Tie: differential execution incl. every code, every capacity 0..len+1 for sampled lists, Vec target, http::Response path; the real "
+             "http reason table is read from the compiled crate on every run.",
+        design="6/C20", technique="Coq proof (induction over the header list / write sequence) + differential execution over all codes and capacities",
+        note="std Write for &mut [u8]/Vec and http::StatusCode::{as_str,canonical_reason} modelled; header name 'status' excluded (documented precondition, debug_assert)."),
 }
 
 PENDING = {}
